@@ -89,11 +89,12 @@ theorem reachable_cache_inv {F : Type} (ctx : Ctx F) (e : Expr F) (pre : List (P
 /-- **history_independent.** What a point answers through any entry path (`Eval`, `Type`+`EvalBool`, direct
 `EvalX`, `Type`) and the function state it leaves depend on the expression, the scope and the function
 state `st` only: two arbitrary pre-histories of the SAME compiled expression — other field types, ill-typed
-points, other groups (`CopyReset` copies share the cache), other entry paths — give the same answer: the
-specialisation CACHE carries nothing from one evaluation to the next. No bound on the histories or on the
-expression. For an expression without lambda nodes `st` is the state of the asking group alone; the states of
-nested lambda nodes (`st.lams`) belong to the compiled expression and ARE shared between groups — that is the
-recorded finding, see `nested_lambda_state_shared` / `nested_lambda_partial` below. -/
+points, other groups (`CopyReset` copies share the node evaluators without a lambda node below them, and their
+cache), other entry paths — give the same answer: the specialisation CACHE carries nothing from one evaluation to
+the next. No bound on the histories or on the expression. `st` is the state of the asking copy alone: its own
+functions and those of its own lambda nodes (`st.lams`; they were shared between the copies until `fix:` dcda92d,
+see `old_nested_lambda_state_shared` / `nested_lambda_per_copy` below, where the cache a copy sees is put together
+from its own and the shared node evaluators and satisfies the same invariant). -/
 theorem history_independent {F : Type} (ctx : Ctx F) (e : Expr F)
     (pre₁ pre₂ : List (Path × Scope F × FnState F)) (p : Path) (σ : Scope F) (st : FnState F) :
     (runPath ctx σ p e (reach ctx e pre₁) st).1 = (runPath ctx σ p e (reach ctx e pre₂) st).1 ∧
@@ -164,7 +165,7 @@ semantics `valRef` — the value, or an error when evaluation faults (zero divis
 and steps the stateful functions exactly as the reference's histories do (`StateRel` is preserved). Lambda nodes
 nested in the expression are covered: the body runs with the lambda node's own functions, which `StateRel` relates
 to the lambda's own history (`Hist.lams`) — for ONE evaluation context; who shares that state with whom is the
-subject of `nested_lambda_partial`. -/
+subject of `nested_lambda_per_copy`. -/
 theorem agrees_with_reference {F : Type} (ctx : Ctx F) (htbl : ctx.tbl = Gen.table) (hsigs : ctx.sigs = Gen.sigs)
     (horacle : ∀ fn args v t, ctx.call fn args = some (.ok v) → sigType ctx fn (args.map Value.ty) = some t → v.ty = t)
     (σ : Scope F) (e : Expr F) (t : Ty) (st : FnState F) (h : Hist F)
@@ -311,62 +312,87 @@ theorem legacy_retry_never_terminates :
     let l := Leaf.negLit (.str [97]); let r := Leaf.lit (.str [98])
     out (direct Gen.table [] .eq l r (initCache Gen.table .eq l r) 0) = none := by decide
 
-/-! ### Recorded finding: the state of a nested lambda node is shared between groups
+/-! ### Lambda nodes nested in an expression, and the groups that use copies of it
 
-`World` (Kap/Model/C04.lean) is what exists at run time for one compiled expression used by several groups: cache and
-lambda-node states once, `Funcs` per `CopyReset` copy. `refRun` gives every group its own histories. -/
+`World` (Kap/Model/C04.lean) is what exists at run time for one compiled expression used by several groups since
+`fix:` dcda92d: every `CopyReset` copy has its own `Funcs`, its own lambda nodes with their states and its own copies of
+the node evaluators above a lambda node; all other node evaluators (and their cache) exist once. `OldWorld` is the code
+before the fix: ONE state per lambda node for all copies. `refRun` gives every group its own histories. -/
 
 /-- a toy context (integers for floats) with the real table and signatures, for the decided witnesses. -/
 def toyCtx : Ctx Int :=
   { ops := Legacy.toyOps, tbl := Gen.table, sigs := Gen.sigs, reMatch := fun _ _ => none, call := fun _ _ => none }
 
-/-- Counterexample (finding `nested-lambda-state-shared`, corpus/C04/finding-nested-lambda-state-shared.ops):
-`(lambda: count()) > 1` asked once by group 0 and once by group 1 through the predicate path, both points well typed:
-the lambda node's single counter makes group 1's FIRST point answer true; the reference answers false twice. So
-`nested_lambda_partial` is false without its hypothesis. -/
-theorem nested_lambda_state_shared :
+/-- Counterexample about the code BEFORE dcda92d (was finding `nested-lambda-state-shared`, regression witness
+corpus/C04/fixed-nested-lambda-state-shared.ops): `(lambda: count()) > 1` asked once by group 0 and once by group 1
+through the predicate path, both points well typed: the lambda node's single counter made group 1's FIRST point answer
+true; the reference answers false twice — and so does the world of today's code. -/
+theorem old_nested_lambda_state_shared :
     let e : Expr Int := .bin .gt (.lam 0 (.call0 "count")) (.lit (.int 1))
     let qs : List (Question Int) := [(0, .pred, []), (1, .pred, [])]
     noMissingLit e = true ∧ (∀ q ∈ qs, askable toyCtx e q = true) ∧ statefulLam e = true ∧
-    World.run toyCtx e (World.init toyCtx e) qs = [.ok (.bool false), .ok (.bool true)] ∧
-    refRun toyCtx e (fun _ => {}) qs = [.ok (.bool false), .ok (.bool false)] := by decide
+    OldWorld.run toyCtx e (OldWorld.init toyCtx e) qs = [.ok (.bool false), .ok (.bool true)] ∧
+    refRun toyCtx e (fun _ => {}) qs = [.ok (.bool false), .ok (.bool false)] ∧
+    World.run toyCtx e (World.init toyCtx e) qs = [.ok (.bool false), .ok (.bool false)] := by decide
 
-/-- **nested_lambda_partial** — agreement with the reference for SEVERAL groups sharing one compiled expression, lambda
-nodes included, with the recorded finding as the explicit exception. For the table and signatures as they are in the
-source now, any float arithmetic, regex matcher and type-respecting library oracle, any expression (lambda nodes
-nested to any depth), any sequence of questions (group, entry path, scope) at well-typed points asked of the freshly
-compiled expression and its `CopyReset` copies: the answers of the code's world — ONE cache and ONE state per lambda
-node shared by all copies — are exactly the reference answers, in which every group has its own histories, PROVIDED
-no nested lambda calls a stateful function (`statefulLam e = false`), or one group asks all the questions.
-Without the proviso the statement is false: `nested_lambda_state_shared`. -/
-theorem nested_lambda_partial {F : Type} (ctx : Ctx F) (htbl : ctx.tbl = Gen.table) (hsigs : ctx.sigs = Gen.sigs)
+/-- **nested_lambda_per_copy** — agreement with the reference for SEVERAL groups using `CopyReset` copies of one
+compiled expression, lambda nodes included, with no exception. For the table and signatures as they are in the source
+now, any float arithmetic, regex matcher and type-respecting library oracle, any expression (lambda nodes nested to any
+depth, stateful functions anywhere), any sequence of questions (group, entry path, scope) at well-typed points, asked in
+any interleaving of the groups of the freshly compiled expression and its copies: the answers of the code's world — the
+copies share every node evaluator without a lambda node below it, cache included, and own everything else — are exactly
+the reference answers, in which every group has its own histories. (Until dcda92d this needed the proviso "no nested
+lambda calls a stateful function, or one group asks": `old_nested_lambda_state_shared`.) -/
+theorem nested_lambda_per_copy {F : Type} (ctx : Ctx F) (htbl : ctx.tbl = Gen.table) (hsigs : ctx.sigs = Gen.sigs)
     (horacle : ∀ fn args v t, ctx.call fn args = some (.ok v) → sigType ctx fn (args.map Value.ty) = some t → v.ty = t)
     (e : Expr F) (hwf : noMissingLit e = true) (qs : List (Question F))
-    (hq : ∀ q ∈ qs, askable ctx e q = true)
-    (hx : statefulLam e = false ∨ ∃ g, ∀ q ∈ qs, q.1 = g) :
+    (hq : ∀ q ∈ qs, askable ctx e q = true) :
     World.run ctx e (World.init ctx e) qs = refRun ctx e (fun _ => {}) qs := by
   have hT : TblOK ctx.tbl := htbl ▸ gen_table_ok
   have hF : FnOK ctx := ⟨fun s hs => List.all_eq_true.mp gen_sigs_ok s (hsigs ▸ hs), horacle⟩
-  rcases hx with hl | ⟨g, hg⟩
-  · exact world_stateless_lams ctx hT hF e hwf hl qs hq _ _ (compile_inv ctx e) (fun g => world_init_rel ctx e g)
-  · exact world_one_group ctx hT hF e hwf g qs hg hq _ _ (compile_inv ctx e) (world_init_rel ctx e g)
+  exact world_agree ctx hT hF e hwf qs hq _ _ (world_init_inv ctx e) (fun g => world_init_rel ctx e g)
 
-/-- non-vacuity of `nested_lambda_partial`, second disjunct: three points of ONE group against the stateful nested
-lambda of the finding — the lambda's counter is the group's own count … -/
+/-- **copy_reset_any_time** — the same with `CopyReset` at ANY time (not only before the first evaluation, as in
+`World.init`): any sequence of questions at well-typed points and of `CopyReset`s that (re)make a copy from the compiled
+expression, which may itself have been evaluated in between. The answers are the reference answers in which a copy
+starts with empty histories when it is made and no group's history is touched by another group's questions or copies. -/
+theorem copy_reset_any_time {F : Type} (ctx : Ctx F) (htbl : ctx.tbl = Gen.table) (hsigs : ctx.sigs = Gen.sigs)
+    (horacle : ∀ fn args v t, ctx.call fn args = some (.ok v) → sigType ctx fn (args.map Value.ty) = some t → v.ty = t)
+    (e : Expr F) (hwf : noMissingLit e = true) (ops : List (WOp F))
+    (hq : ∀ o ∈ ops, o.askable ctx e = true) :
+    World.runOps ctx e (World.init ctx e) ops = refRunOps ctx e (fun _ => {}) ops := by
+  have hT : TblOK ctx.tbl := htbl ▸ gen_table_ok
+  have hF : FnOK ctx := ⟨fun s hs => List.all_eq_true.mp gen_sigs_ok s (hsigs ▸ hs), horacle⟩
+  exact world_agree_ops ctx hT hF e hwf ops hq _ _ (world_init_inv ctx e) (fun g => world_init_rel ctx e g)
+
+/-- non-vacuity of `nested_lambda_per_copy`: the stateful nested lambda of the former finding, two groups interleaved
+through three entry paths — each group's lambda counts that group's points only … -/
 example :
     let e : Expr Int := .bin .gt (.lam 0 (.call0 "count")) (.lit (.int 1))
-    let qs : List (Question Int) := [(4, .pred, []), (4, .eval, []), (4, .direct .bool, [])]
-    noMissingLit e = true ∧ (∀ q ∈ qs, askable toyCtx e q = true) ∧ (∀ q ∈ qs, q.1 = 4) ∧
-    World.run toyCtx e (World.init toyCtx e) qs = [.ok (.bool false), .ok (.bool true), .ok (.bool true)] := by decide
+    let qs : List (Question Int) := [(4, .pred, []), (7, .pred, []), (4, .eval, []), (7, .direct .bool, []), (4, .direct .bool, [])]
+    noMissingLit e = true ∧ (∀ q ∈ qs, askable toyCtx e q = true) ∧ statefulLam e = true ∧
+    World.run toyCtx e (World.init toyCtx e) qs =
+      [.ok (.bool false), .ok (.bool false), .ok (.bool true), .ok (.bool true), .ok (.bool true)] := by decide
 
-/-- … first disjunct: a STATELESS nested lambda (`lambda: "a" * 2`) inside a stateful expression, two groups
-interleaved: each group counts its own points. -/
+/-- … and a STATELESS nested lambda (`lambda: "a" * 2`) inside a stateful expression, two groups interleaved: each
+group counts its own points. -/
 example :
     let e : Expr Int := .bin .gt (.bin .mult (.call0 "count") (.lam 0 (.bin .mult (.ref "a") (.lit (.int 2))))) (.lit (.int 15))
     let σ : Scope Int := [("a", .int 5)]
     let qs : List (Question Int) := [(0, .pred, σ), (1, .pred, σ), (0, .pred, σ), (1, .eval, σ)]
     noMissingLit e = true ∧ (∀ q ∈ qs, askable toyCtx e q = true) ∧ statefulLam e = false ∧
     refRun toyCtx e (fun _ => {}) qs = [.ok (.bool false), .ok (.bool false), .ok (.bool true), .ok (.bool true)] := by decide
+
+/-- non-vacuity of `copy_reset_any_time`: a copy made after the original has counted two points starts counting at
+one, and re-making it resets it; the original goes on counting. -/
+example :
+    let e : Expr Int := .bin .gt (.lam 0 (.call0 "count")) (.lit (.int 1))
+    let ops : List (WOp Int) := [.ask (0, .pred, []), .ask (0, .pred, []), .copy 3, .ask (3, .pred, []), .ask (0, .pred, []),
+      .ask (3, .pred, []), .copy 3, .ask (3, .eval, [])]
+    (∀ o ∈ ops, o.askable toyCtx e = true) ∧
+    World.runOps toyCtx e (World.init toyCtx e) ops =
+      [.ok (.bool false), .ok (.bool true), .ok (.bool false), .ok (.bool true), .ok (.bool true), .ok (.bool false)] := by
+  decide
 
 /-- the lambda node keeps its OWN functions, separate from the enclosing expression's (`count()` outside and inside
 count independently: 1·1, 2·2, 3·3), in the evaluator and in the reference alike. -/
